@@ -49,8 +49,14 @@ def rand_desc(rng):
                 ncol = rng.randint(1, 6)
             style = rng.choice(["plain", "E", "D"])
             rows = []
-            for _k in range(nprim):
-                e = fmt_num(rng, 10 ** rng.uniform(-2, 5), style if style != "plain" or True else style)
+            # about one group in six repeats the exponents (and the letters) of an earlier group of the element with other
+            # coefficients — directly after it or further down (general-contraction sets written shell by shell)
+            again = rng.choice(groups) if groups and rng.random() < 0.17 else None
+            if again is not None:
+                ls = list(again[0])
+                ncol = len(again[1][0][1])
+            for _k in range(nprim if again is None else len(again[1])):
+                e = fmt_num(rng, 10 ** rng.uniform(-2, 5), style if style != "plain" or True else style) if again is None else again[1][_k][0]
                 cs = [fmt_num(rng, rng.choice([-1, 1]) * 10 ** rng.uniform(-3, 1), rng.choice(["plain", "E", "D"])) for _ in range(ncol)]
                 rows.append((e, cs))
             groups.append((ls, rows))
@@ -341,9 +347,44 @@ def pyscf_case(run, rng):
     return ok
 
 
+def iodata_case(run, rng):
+    """from_iodata on a duck-typed IOData object: every shell keeps its data (angular momentum, centre, exponents, coefficients,
+    kind, atom index) and reports the declared component conventions incl. the sign prefixes; the argument is not altered"""
+    import copy
+    from checks.common import install_iodata_standin, iodata_molecule
+    from gbasis.wrappers import from_iodata
+    install_iodata_standin()
+    mol, specs = iodata_molecule(rng, 3)
+    conv0 = copy.deepcopy(mol.obasis.conventions)
+    data0 = [(s.exponents.copy(), s.coeffs.copy(), s.icenter, list(s.kinds), s.angmoms.copy()) for s in mol.obasis.shells]
+    at0 = mol.atcoords.copy()
+    run.case(("iodata", len(specs), tuple(s.l for s in specs)))
+    run.count("from_iodata")
+    rep = {"case": "iodata", "signature": {"kind": "iodata"}}
+    basis = from_iodata(mol)
+    ok = len(basis) == len(specs)
+    for b, sp_, sh in zip(basis, specs, mol.obasis.shells):
+        ok = ok and b.angmom == sp_.l and np.array_equal(b.coord, mol.atcoords[sh.icenter]) and np.array_equal(b.exps, sh.exponents) \
+            and np.array_equal(b.coeffs, sh.coeffs) and b.coord_type == ("spherical" if sp_.sph else "cartesian") and b.icenter == sh.icenter \
+            and [tuple(int(v) for v in c) for c in b.angmom_components_cart] == [tuple(c) for c in sp_.cart] \
+            and (sp_.sphord is None or list(b.angmom_components_sph) == list(sp_.sphord))
+    if not ok:
+        run.violation("from_iodata does not preserve the shells / declared conventions of the IOData object", rep)
+        return False
+    same = mol.obasis.conventions == conv0 and np.array_equal(mol.atcoords, at0) and all(
+        np.array_equal(s.exponents, d[0]) and np.array_equal(s.coeffs, d[1]) and s.icenter == d[2] and list(s.kinds) == d[3]
+        and np.array_equal(s.angmoms, d[4]) for s, d in zip(mol.obasis.shells, data0))
+    if not same:
+        run.violation("from_iodata altered its argument", dict(rep, signature={"kind": "iodata-argument"}))
+        return False
+    return True
+
+
 def check(run):
     rng = run.rng
     quick = run.tier == "quick"
+    for _ in range(4 if quick else 30):
+        iodata_case(run, rng)
     data = os.path.join(core.REPO, "tests")
     for f in sorted(os.listdir(data)):
         if f.endswith(".nwchem") or f.endswith(".gbs"):
@@ -377,7 +418,10 @@ def check(run):
 
 def replay(run, rep):
     n0 = len(run.violations)
-    if rep["case"] == "repeated-import":
+    if rep["case"] == "iodata":
+        for k in range(10):
+            iodata_case(run, run.rng)
+    elif rep["case"] == "repeated-import":
         for k in range(6):
             repeated_import_case(run, run.rng, rep["format"])
     elif rep["case"] == "parse":
